@@ -18,7 +18,7 @@ fn packet(c: u8, i: u8, body: &[u8]) -> Vec<u8> {
 
 pub fn run(ctx: &Ctx) -> i32 {
     let mut report = ctx.report("C15", "exploration");
-    report.rule = "17 reply enums x all 65536 (class,instruction) pairs x bodies {empty, a canonical body of every variant of the enum (so: valid for the target and valid for another variant), a whole packet of every variant as body (with and without an acknowledgement in front), canonical bodies of types outside the enum, random bytes, truncated}, each body inside a reply set also behind the extended length form FF lo hi; for pairs inside the reply set additionally many canonical and byte-mutated bodies. Oracle: independent reply-set table + the variant type's own decoder on the same bytes. Sequence level (the dispatch must not depend on what was received before): each of the 17 Sequence streams, after the acknowledgement and after every prefix of valid non-final replies of length <= 1 (thorough: <= 2), is sent a bare packet of every one of the 65536 control fields outside its reply set - it must yield exactly one error for it (after the prefix's items), end, and write nothing more (no acknowledgement: the packet was not mistaken for a reply), having consumed exactly that packet (for the classes 04/06/80/84 and a stride of the others the packet comes in the extended length form with a body that looks like a final reply); likewise every control field other than 80 00 in place of the acknowledgement, with the regular script queued behind it. Enumeration is duplicate-free by construction (enum, control field, body index / stream, prefix, control field); non-trivial = every case (each has a definite expected outcome).".into();
+    report.rule = "17 reply enums x all 65536 (class,instruction) pairs x bodies {empty, a canonical body of every variant of the enum (so: valid for the target and valid for another variant), a whole packet of every variant as body (with and without an acknowledgement in front), canonical bodies of types outside the enum, random bytes, truncated}, each body inside a reply set also behind the extended length form FF lo hi; for pairs inside the reply set additionally many canonical and byte-mutated bodies. Oracle: independent reply-set table + the variant type's own decoder on the same bytes. Sequence level (the dispatch must not depend on what was received before): each of the 17 Sequence streams, after the acknowledgement and after every prefix of valid non-final replies of length <= 1 (thorough: <= 2), is sent a bare packet of every one of the 65536 control fields outside its reply set - it must yield exactly one error for it (after the prefix's items), end, and write nothing more (no acknowledgement: the packet was not mistaken for a reply), having consumed exactly that packet (for the classes 04/06/80/84 and a stride of the others the packet comes in the extended length form with a body that looks like a final reply); likewise every control field other than 80 00 in place of the acknowledgement, with the regular script queued behind it; and for the firmware-upload stream control fields outside {04 0C, 06 0F, 06 1E} behind a complete upload and behind the first request. Enumeration is duplicate-free by construction (enum, control field, body index / stream, prefix, control field); non-trivial = every case (each has a definite expected outcome).".into();
     report.exhaustive = Some(true);
     report.assumptions = vec![
         "reply sets of DESIGN Appendix B (refcodec::tables) are the specification".into(),
@@ -219,6 +219,7 @@ fn sequence_level(ctx: &Ctx, report: &mut refcodec::evidence::Report, schema: &r
     let depth = ctx.by(1usize, 2usize);
     long_replies(ctx, report, schema);
     ack_position_sweep(ctx, report, schema, "C15");
+    write_file_sweep(ctx, report, schema);
     let threads = ctx.threads;
     let seed = ctx.seed;
     // work items: (stream, prefix)
@@ -467,6 +468,54 @@ pub fn ack_position_sweep(ctx: &Ctx, report: &mut refcodec::evidence::Report, sc
                 } else if delivered != 3 {
                     r.violation(&format!("{id} {} stream: reads beyond the packet that failed the exchange", sd.name), &format!("{:02x}{:02x}00 in place of the acknowledgement: {delivered} bytes taken from the connection", c, i), case());
                 }
+            }
+        }
+    });
+}
+
+
+/// The firmware upload stream (not a `Sequence` impl): behind a complete upload (every announced byte fetched) and behind
+/// the first request, control fields outside its reply set {04 0C, 06 0F, 06 1E} - all of the classes 04/06/80/84 and a
+/// stride of the rest - must end the stream with exactly one error and no further write.
+fn write_file_sweep(ctx: &Ctx, report: &mut refcodec::evidence::Report, schema: &refcodec::layout::Schema) {
+    use crate::script::Chunking;
+    use crate::seq::{upload_dir, wf_full_upload, CmdCheck, Exchange, Fault, WfCodec, ACK};
+    let threads = ctx.threads;
+    let seed = ctx.seed;
+    let in_set: [(u8, u8); 3] = [(0x04, 0x0c), (0x06, 0x0f), (0x06, 0x1e)];
+    sharded(report, threads, |shard, r| {
+        let mut rng = Rng::derive(seed, 0xC15_F11E + shard as u64);
+        for round in 0..2usize {
+            let (dir, params, sizes) = upload_dir(&format!("c15-{shard}"), &mut rng);
+            let announce = WfCodec::announce(params.password as u128, &sizes);
+            let mut replies = wf_full_upload(&mut rng, &dir, params.block);
+            if round == 1 {
+                replies.truncate(1);
+            }
+            let mut cf = shard as u32;
+            while cf < 65536 {
+                let (c, i) = ((cf >> 8) as u8, cf as u8);
+                cf += threads as u32;
+                if in_set.contains(&(c, i)) || !(matches!(c, 0x04 | 0x06 | 0x80 | 0x84) || (cf / threads as u32) % 61 == 0) {
+                    continue;
+                }
+                let ex = Exchange {
+                    stream: "feig::WriteFile",
+                    cmd_bytes: announce.clone(),
+                    cmd_check: CmdCheck::WriteFile { password: params.password as u128, files: sizes.clone(), len: announce.len() },
+                    ack: ACK.to_vec(),
+                    replies: replies.clone(),
+                    final_at: None,
+                    junk: vec![],
+                    chunking: Chunking::Whole,
+                    pend_between: false,
+                    write_chunk: None,
+                    fault: Some(Fault { kind: "foreign-control-field", at_ack: false, bytes: vec![c, i, 0], eof: false, followed_by: vec![0x06, 0x0f, 0x00] }),
+                    wf: Some(&params),
+                };
+                r.case(fnv(&announce) ^ (cf as u64) << 8 ^ round as u64, true);
+                r.count("write_file_sweep_cases", 1);
+                ex.check_c06(r, schema, "C15");
             }
         }
     });
